@@ -139,6 +139,7 @@ CanBest(tp, cf, ifc, b) ==
   /\ ifc \in {"none", "confirm"}
   /\ b \in Blocks /\ Anc(b, target)
   /\ b # tp
+  /\ Anc(tp, target) => Anc(tp, b)          \* on the same chain the tip only moves forward
   /\ \A r \in Stale(cf) : Height(cf[r]) > Height(b)
 ConfAfterBest(tp, cf, b) == IF Anc(tp, b) THEN cf ELSE ConfAfterRewind(cf, b)
 
